@@ -405,6 +405,14 @@ func (w *world) Run(t *rt.Tape, trace bool) *core.Result {
 	// (p2p.Create / Join / Connect, two parties, one connection) instead of NewConn: whatever the
 	// constructor does to the socket before it wraps it is part of the connection layer.
 	viaNetwork := !faultMode && ab.Cap != 0 && ba.Cap != 0 && t.Choose(rt.SGen, 5) == 0
+	// One of the remaining fault-free cases in six runs over the library's own in-memory transport
+	// (p2p.Pipe: two synchronous io.Pipes - a Write returns when the other end has read all of it,
+	// a Read returns data of one Write only).
+	viaPipe := !faultMode && !viaNetwork && t.Choose(rt.SGen, 6) == 0
+	if viaPipe {
+		res.Reach["conn.p2p.Pipe"]++
+		res.Class = "p2p.Pipe"
+	}
 	var setupErr error
 	if viaNetwork {
 		res.Reach["conn.obtained-through-p2p.Network"]++
@@ -460,6 +468,8 @@ func (w *world) Run(t *rt.Tape, trace bool) *core.Result {
 			}
 			ea, eb = nt.Conns[0].Server, nt.Conns[0].Client
 			a.ep, b.ep = ea, eb
+		} else if viaPipe {
+			a.conn, b.conn = p2p.Pipe()
 		} else {
 			a.conn = p2p.NewConn(ea)
 			b.conn = p2p.NewConn(eb)
@@ -590,6 +600,17 @@ func (w *world) Run(t *rt.Tape, trace bool) *core.Result {
 	type cnt struct {
 		name      string
 		got, want uint64
+	}
+	if viaPipe {
+		for _, c := range []cnt{
+			{"bytes received by B (B.Stats.Recvd) vs bytes sent by A (A.Stats.Sent) over p2p.Pipe", b.conn.Stats.Recvd.Load(), a.conn.Stats.Sent.Load()},
+			{"bytes received by A (A.Stats.Recvd) vs bytes sent by B (B.Stats.Sent) over p2p.Pipe", a.conn.Stats.Recvd.Load(), b.conn.Stats.Sent.Load()},
+		} {
+			if c.got != c.want {
+				return fail("byte-counters", fmt.Sprintf("%s: %d != %d", c.name, c.got, c.want))
+			}
+		}
+		return res
 	}
 	for _, c := range []cnt{
 		{"A.Stats.Sent vs bytes accepted by the transport from A", a.conn.Stats.Sent.Load(), ea.SentCount()},
